@@ -112,6 +112,13 @@ def explicit(tier, seed):
                     for minv in ((3, 0), (3, 3)):
                         yield {"kind": "mixed", "cipher": cipher, "mac": mac,
                                "who": who, "cred": cred, "minv": list(minv)}
+    for v in VERSIONS[1:]:
+        for first, second in (("rsa", "ecdsa"), ("ecdsa", "rsa"),
+                              ("rsa", "ed25519"), ("ecdsa", "rsapss"),
+                              ("rsa", "dsa"), ("dsa", "ecdsa")):
+            for usable in ("both", "first", "second"):
+                yield {"kind": "multicred", "ver": list(v), "first": first,
+                       "second": second, "usable": usable}
     for sid in neg:
         s = iana.SUITES[sid]
         if s.tls13 or s.auth not in ("rsa", "ecdsa", "dsa", None):
@@ -149,6 +156,8 @@ def check(case):
         return check_undef_client(case)
     if kind == "mixed":
         return check_mixed(case)
+    if kind == "multicred":
+        return check_multicred(case)
     if kind == "resume_lower":
         return check_resume_lower(case)
     raise HarnessError(kind)
@@ -204,6 +213,60 @@ def check_mixed(case):
     p = sc.connect({"settings": sc.mk_settings(**ckw)},
                    {"cred": case["cred"], "settings": sc.mk_settings(**skw)})
     return judge_pair(p, labels, "mixed")
+
+
+def check_multicred(case):
+    """A server holding two key pairs (primary + one in settings.
+    virtual_hosts) of different types: whichever it ends up presenting, the
+    negotiated suite's authentication method must be that certificate's."""
+    from tlslite.handshakesettings import VirtualHost, Keypair
+    v = tuple(case["ver"])
+    first, second = case["first"], case["second"]
+    labels = ["multicred", "ver=" + sc.VERNAME[v], "first=" + first,
+              "second=" + second, "usable=" + case["usable"]]
+    kw = everything(v, v)
+    skw = dict(kw)
+    ckw = dict(kw)
+    # make one key type unusable through the signature-algorithm lists
+    if case["usable"] != "both" and v >= (3, 3):
+        dead = first if case["usable"] == "second" else second
+        fam = cred_family(dead)
+        if fam == "rsa":
+            ckw["rsaSigHashes"] = ["sha384"]
+            skw["rsaSigHashes"] = ["sha256"]
+            ckw["rsaSchemes"] = ["pkcs1"]
+            skw["rsaSchemes"] = ["pkcs1"]
+        elif fam == "ecdsa":
+            ckw["ecdsaSigHashes"] = ["sha384"]
+            skw["ecdsaSigHashes"] = ["sha256"]
+        else:
+            return good(nt=False, labels=labels)
+    sst = sc.mk_settings(**skw)
+    vh = VirtualHost()
+    ch2, k2 = sc.cred(second)
+    vh.keys = [Keypair(k2, tuple(ch2.x509List))]
+    sst.virtual_hosts = [vh]
+    DET.reseed("C20mc", v, first, second, case["usable"])
+    p = sc.connect({"settings": sc.mk_settings(**ckw)},
+                   {"cred": first, "settings": sst})
+    if not p.both_ok:
+        for o in (p.co, p.so):
+            if o.state == "exc" and not isinstance(
+                    o.exc, (Exception,)):
+                raise o.exc
+        return good(nt=False, labels=labels + ["failed"])
+    sid = p.c.session.cipherSuite
+    su = iana.SUITES[sid]
+    chain = p.c.session.serverCertChain
+    alg = chain.x509List[0].certAlg if chain else None
+    fam = {"rsa": "rsa", "rsa-pss": "rsa", "ecdsa": "ecdsa", "dsa": "dsa",
+           "Ed25519": "ecdsa", "Ed448": "ecdsa"}.get(alg)
+    labels.append("presented=" + str(alg))
+    if not su.tls13 and su.auth != fam:
+        return bad("suite-authentication-differs-from-certificate:%s:%s" % (
+            su.auth, alg), "negotiated %s with a %s certificate" % (
+                su.name, alg), labels=labels)
+    return good(labels=labels)
 
 
 def check_resume_lower(case):
